@@ -286,14 +286,15 @@ def coq_case(name, p, G, omega, obs, big, which='all'):
     for o in range(no):
         if inv[o]:
             tol = 1e-9 * max(1.0, np.abs(S[o]).max()) * max(1.0, np.abs(np.eye(n) - ph[o] * L).max())
-            res_parts.append(f"tally (fun (_ : unit) z => zeroC O {tol_lit(O, tol)} z) (map (fun _ => tt) (flat2 (solve_residual O {n} (T_of O {n} (nth {o} ph (c0 O)) L) (nth {o} Ss []) {G}))) "
-                             f"(flat2 (solve_residual O {n} (T_of O {n} (nth {o} ph (c0 O)) L) (nth {o} Ss []) {G})) (0,0,0)%N")
+            res_parts.append(f"(let res := flat2 (solve_residual O {n} (T_of O {n} (nth {o} ph (c0 O)) L) (nth {o} Ss []) {G}) in "
+                             f"tally (fun (_ : unit) z => zeroC O {tol_lit(O, tol)} z) (map (fun _ => tt) res) res (0,0,0)%N)")
     parts = [
         f"tally_eig O {d} {tol_lit(O, 1e-11 * hs)} Hs Vs ev",
         # the model with the implementation's own oracle data reproduces the implementation
-        f"tallyC O {tol_lit(O, TOL_SAME * scm)} {Blit}%Z (flat3 (cm_periodic O {n} {na} {no} {G} ph cm L inv Ss))",
+        # (cm_periodic .. inv Ss = cm_apply .. (S_list_from inv Ss Sexp) by Proofs/Periodic.v: S_list_from_eq)
+        f"tallyC O {tol_lit(O, TOL_SAME * scm)} {Blit}%Z (flat3 (cm_apply O {n} {na} {no} cm (S_list_from {no} inv Ss Sexp)))",
         # division-free enclosures: explicit geometric sum and the atomic rule on G copies
-        f"tallyC O {tol_lit(O, REL * sB)} {Blit}%Z (flat3 (cm_periodic O {n} {na} {no} {G} ph cm L [] []))",
+        f"tallyC O {tol_lit(O, REL * sB)} {Blit}%Z (flat3 (cm_apply O {n} {na} {no} cm Sexp))",
         f"tallyC O {tol_lit(O, REL * sB)} {Blit}%Z (flat3 (atomic_repeated O {n} {na} {no} {G} ph cm L))",
         # total propagator: matrix_power of the cached one, and the tiled pulse from scratch
         f"tallyC O {tol_lit(O, 1e-9 * G)} {carr_lit(np.array(q.total_propagator).reshape(-1))}%Z (flat2 (mpow O {d} Qtot {G}))",
@@ -308,7 +309,7 @@ def coq_case(name, p, G, omega, obs, big, which='all'):
         f"tallyC O {tol_lit(O, 1e-9 * max(1.0, np.abs(omega).max() * q.tau))} {cvec_lit(q.get_total_phases(omega))}%Z (map (fun z => cpow O z {G}) ph)",
         f"tallyC O {tol_lit(O, 1e-9 * max(1.0, np.abs(omega).max() * p.tau))} {cvec_lit(ph)}%Z (map (fun w => cexp O (omul O w (tau_get O None dts))) om)",
     ] + res_parts
-    enc = [x for x in parts if 'cm_periodic O %d %d %d %d ph cm L [] []' % (n, na, no, G) in x or 'atomic_repeated' in x]
+    enc = [x for x in parts if 'cm Sexp)' in x or 'atomic_repeated' in x]
     if which == 'enc':
         parts = enc
     elif which == 'rest':
@@ -330,6 +331,7 @@ def coq_case(name, p, G, omega, obs, big, which='all'):
             f"  let inv := {invlit} in\n"
             f"  let Ss := rmats O {Slit}%Z in\n"
             f"  let Qtot := rmat O {carr_lit(np.array(base.total_propagator))}%Z in\n"
+            f"  let Sexp := S_list O {n} {no} {G} ph L [] [] in\n"
             f"  {body}.\n"), dict(n_inv=int(inv.sum()), n_sing=int((~inv).sum()))
 
 
@@ -350,7 +352,7 @@ def one_case(r, i, thorough, spec=None, window_case=False):
             d = int(r.choice([2, 2, 3])) if thorough else (3 if i % 5 == 4 else 2)
             G = GS[i % len(GS)]
             p = make_pulse(r, cls, d)
-            omega, ftags = frequency_grid(r, p, nsing=4 if thorough else 3)
+            omega, ftags = frequency_grid(r, p, nsing=4 if thorough else (1 if (d == 3 and G == 16) else 3))
         spec = dict(cls=cls, G=G, pulse=pack(p), omega=omega, ftags=ftags)
     else:
         p = unpack(spec['pulse'])
@@ -387,7 +389,8 @@ def run(ctx):
     for i, (p, G, omega, obs, _, win) in enumerate(cases):
         for which in (('rest', 'enc') if win else ('all',)):
             nm = 'case%d_%s' % (i, which)
-            txt, st = coq_case(nm, p, G, omega, obs, False, which)
+            heavy = G >= 16 or (G >= 5 and len(p.basis) >= 16)
+            txt, st = coq_case(nm, p, G, omega, obs, heavy, which)
             defs.append((nm, txt))
             meta.append((i, which))
         for k in st:
